@@ -50,7 +50,7 @@ def handle (line : String) : String :=
     | some (ts, []) =>
       match parseToks ts with
       | .ok t => s!"ok {encTree t} | {subtreeInfo t} | {nodeInfo t}"
-      | .error .syntax => "err"
+      | .error .bad => "err"
       | .error .fuel => "fuel"
     | _ => "bad-request"
   | "print" :: rest =>
